@@ -20,7 +20,15 @@ Two families:
                             at the start of every Pool.connect, so this covers a fork at every session boundary,
                             with the parent idle (nothing pooled) or holding a pooled connection.
   fork_mid_session_<pool> - the pid changes right before DB-API call number f, wherever that is, i.e. also while a
-                            session is open on the parent's connection ("open transaction" in the property text).
+                            session is open on the parent's connection ("open transaction" in the property text) or
+                            while SQLitePool._connect is still initialising the new connection.  The child then IS
+                            inside that session (it inherited the session cache holding the parent's connection).
+                            What that inherited session does until it ends is the KNOWN REGION (pony has no pid check
+                            outside Pool.connect); this family asserts F1-F4 for everything else: the sessions the
+                            child starts afterwards, retention, the pool's pid.
+  fork_inherited_session_<pool> - the same scenarios with F1 asserted strictly, inherited session included
+                            (counterexamples are classified `fork-inside-open-session-...` in checks/c36.py).
+  single_fault_<pool>     - fork at the f-th getpid() call combined with one failing DB-API call (symbolic position).
 The symbolic numbers are handled as in C19 (fakedb.untraced: pony never sees them; the one comparison per call is
 made under CrossHair's tracer, which forks the path there).
 
@@ -42,6 +50,7 @@ from engine.ch import ok
 from engine import fakedb as F
 
 NSESS = int(os.environ.get('C36_NSESS', '3'))
+FULL = os.environ.get('C36_FULL') == '1'             # thorough tier: both sessions before the fault are symbolic in single_fault_*
 NMAX = 120
 
 rec = None
@@ -131,7 +140,7 @@ def _check(kind, db, clock, why, faulted):
     P, C = clock.PARENT, clock.CHILD
     pool = db.provider.pool
     # the session that was open when the fork happened, as continued by the child: known region unless STRICT_INHERITED
-    region = None if STRICT_INHERITED[0] else clock.fork_phase
+    region = clock.fork_phase if (clock.mode == 'dbapi' and clock.fork_in_session and not STRICT_INHERITED[0]) else None
     # F1
     for e in rec.log:
         if e.pid == C and e.con is not None and e.con.pid_created == P and e.phase != region:
@@ -176,6 +185,14 @@ def _check(kind, db, clock, why, faulted):
     return not why
 
 
+def _say(result):
+    """When run from a replay script (replays/.../violation_NN.py): print why the scenario failed and the call journal."""
+    import sys
+    if not result and 'violation_' in (sys.argv[0] if sys.argv else ''):
+        print('reasons: %s' % '; '.join(LAST.get('why', ())))
+        print('DB-API call journal: %s' % rec.dump())
+
+
 def _scenario(kind, mode, f, s1, s2, s3, raises, k1):
     raises = True if raises else False
     shapes = []
@@ -183,7 +200,9 @@ def _scenario(kind, mode, f, s1, s2, s3, raises, k1):
         shapes.append(0 if s == 0 else 1 if s == 1 else 2 if s == 2 else 3 if s == 3 else 4)
     clock = F.ForkClock(rec, f, mode)
     with F.untraced(rec, clock):
-        return _scenario_body(kind, clock, shapes, raises, k1)
+        r = _scenario_body(kind, clock, shapes, raises, k1)
+    _say(r)
+    return r
 
 
 def _scenario_body(kind, clock, shapes, raises, k1):
@@ -251,6 +270,7 @@ def single_fault_file(f: int, k1: int, s1: int, s2: int) -> bool:
     pre: 0 <= f <= 8
     pre: 0 <= k1 <= NMAX
     pre: 0 <= s1 <= 4 and 0 <= s2 <= 4
+    pre: FULL or s2 == 2
     post: _
     """
     return ok(_scenario('file', 'getpid', f, s1, s2, 2, False, k1))
@@ -282,6 +302,7 @@ def single_fault_mem(f: int, k1: int, s1: int, s2: int) -> bool:
     pre: 0 <= f <= 8
     pre: 0 <= k1 <= NMAX
     pre: 0 <= s1 <= 4 and 0 <= s2 <= 4
+    pre: FULL or s2 == 2
     post: _
     """
     return ok(_scenario('mem', 'getpid', f, s1, s2, 2, False, k1))
@@ -313,6 +334,7 @@ def single_fault_pg(f: int, k1: int, s1: int, s2: int) -> bool:
     pre: 0 <= f <= 8
     pre: 0 <= k1 <= NMAX
     pre: 0 <= s1 <= 4 and 0 <= s2 <= 4
+    pre: FULL or s2 == 2
     post: _
     """
     return ok(_scenario('pg', 'getpid', f, s1, s2, 2, False, k1))
@@ -344,6 +366,7 @@ def single_fault_my(f: int, k1: int, s1: int, s2: int) -> bool:
     pre: 0 <= f <= 8
     pre: 0 <= k1 <= NMAX
     pre: 0 <= s1 <= 4 and 0 <= s2 <= 4
+    pre: FULL or s2 == 2
     post: _
     """
     return ok(_scenario('my', 'getpid', f, s1, s2, 2, False, k1))
@@ -375,7 +398,78 @@ def single_fault_ora(f: int, k1: int, s1: int, s2: int) -> bool:
     pre: 0 <= f <= 8
     pre: 0 <= k1 <= NMAX
     pre: 0 <= s1 <= 4 and 0 <= s2 <= 4
+    pre: FULL or s2 == 2
     post: _
     """
     return ok(_scenario('ora', 'getpid', f, s1, s2, 2, False, k1))
 HARNESSES.append('single_fault_ora')
+
+
+def fork_inherited_session_file(f: int, s1: int, s2: int, raises: bool) -> bool:
+    """
+    pre: 0 <= f <= NMAX
+    pre: 0 <= s1 <= 4 and 0 <= s2 <= 4
+    post: _
+    """
+    STRICT_INHERITED[0] = True
+    try:
+        return ok(_scenario('file', 'dbapi', f, s1, s2, 2, raises, 0))
+    finally:
+        STRICT_INHERITED[0] = False
+HARNESSES.append('fork_inherited_session_file')
+
+
+def fork_inherited_session_mem(f: int, s1: int, s2: int, raises: bool) -> bool:
+    """
+    pre: 0 <= f <= NMAX
+    pre: 0 <= s1 <= 4 and 0 <= s2 <= 4
+    post: _
+    """
+    STRICT_INHERITED[0] = True
+    try:
+        return ok(_scenario('mem', 'dbapi', f, s1, s2, 2, raises, 0))
+    finally:
+        STRICT_INHERITED[0] = False
+HARNESSES.append('fork_inherited_session_mem')
+
+
+def fork_inherited_session_pg(f: int, s1: int, s2: int, raises: bool) -> bool:
+    """
+    pre: 0 <= f <= NMAX
+    pre: 0 <= s1 <= 4 and 0 <= s2 <= 4
+    post: _
+    """
+    STRICT_INHERITED[0] = True
+    try:
+        return ok(_scenario('pg', 'dbapi', f, s1, s2, 2, raises, 0))
+    finally:
+        STRICT_INHERITED[0] = False
+HARNESSES.append('fork_inherited_session_pg')
+
+
+def fork_inherited_session_my(f: int, s1: int, s2: int, raises: bool) -> bool:
+    """
+    pre: 0 <= f <= NMAX
+    pre: 0 <= s1 <= 4 and 0 <= s2 <= 4
+    post: _
+    """
+    STRICT_INHERITED[0] = True
+    try:
+        return ok(_scenario('my', 'dbapi', f, s1, s2, 2, raises, 0))
+    finally:
+        STRICT_INHERITED[0] = False
+HARNESSES.append('fork_inherited_session_my')
+
+
+def fork_inherited_session_ora(f: int, s1: int, s2: int, raises: bool) -> bool:
+    """
+    pre: 0 <= f <= NMAX
+    pre: 0 <= s1 <= 4 and 0 <= s2 <= 4
+    post: _
+    """
+    STRICT_INHERITED[0] = True
+    try:
+        return ok(_scenario('ora', 'dbapi', f, s1, s2, 2, raises, 0))
+    finally:
+        STRICT_INHERITED[0] = False
+HARNESSES.append('fork_inherited_session_ora')
